@@ -676,7 +676,35 @@ func genSeparatorCollision(r *rng) *Model {
 // reach (nesting deeper than 16, paths longer than 100 edges, more than 32
 // types or 12 relations, long call histories).
 
-// genDeepNesting: one relation whose rewrite is nested 10-40 operators deep.
+// sizeNear draws a size from [lo, hi]: mostly from the cheap lower part of the
+// range [lo, mid], sometimes right at a capacity or threshold an implementation
+// is likely to carry (powers of two, 100, 1000: one below, at, one above),
+// sometimes anywhere above mid.
+func sizeNear(r *rng, lo, mid, hi int) int {
+	switch c := r.intn(10); {
+	case c < 5:
+		return lo + r.intn(mid-lo+1)
+	case c < 8:
+		var cand []int
+		for _, t := range []int{16, 32, 64, 100, 128, 200, 256, 500, 512, 1000, 1024} {
+			for _, d := range []int{-1, 0, 1} {
+				if t+d >= lo && t+d <= hi {
+					cand = append(cand, t+d)
+				}
+			}
+		}
+		if len(cand) > 0 {
+			return cand[r.intn(len(cand))]
+		}
+	}
+	if hi > mid {
+		return mid + 1 + r.intn(hi-mid)
+	}
+	return lo + r.intn(hi-lo+1)
+}
+
+// genDeepNesting: one relation whose rewrite is nested 10-140 operators deep
+// (mostly 10-40; thresholds 16, 32, 64, 100, 128 and their neighbours).
 func genDeepNesting(r *rng) *Model {
 	m := &Model{Schema: "1.1"}
 	m.Types = append(m.Types, &Type{Name: "user"}, &Type{Name: "employee"})
@@ -684,7 +712,7 @@ func genDeepNesting(r *rng) *Model {
 	doc.Relations = append(doc.Relations,
 		&Relation{Name: "b", Expr: &Expr{Kind: KThis}, Direct: []Ref{{Type: "user"}, {Type: "employee"}}},
 		&Relation{Name: "c", Expr: &Expr{Kind: KThis}, Direct: []Ref{{Type: "user"}}})
-	depth := 10 + r.intn(31)
+	depth := sizeNear(r, 10, 40, 140)
 	ops := []string{KUnion, KUnion, KInter, KExcl}
 	leaf := func() *Expr { return &Expr{Kind: KComputed, Rel: []string{"b", "c"}[r.intn(2)]} }
 	e := leaf()
@@ -707,14 +735,14 @@ func genDeepNesting(r *rng) *Model {
 	return m
 }
 
-// genLongChain: a chain of 90-160 relations (computed, with a few TTU and
-// userset hops): simple paths longer than 100 edges.
+// genLongChain: a chain of 90-300 relations (computed, with a few TTU and
+// userset hops; mostly 90-160): simple paths longer than 100, 128, 256 edges.
 func genLongChain(r *rng) *Model {
 	m := &Model{Schema: "1.1"}
 	m.Types = append(m.Types, &Type{Name: "user"})
 	doc := &Type{Name: "doc"}
 	doc.Relations = append(doc.Relations, &Relation{Name: "parent", Expr: &Expr{Kind: KThis}, Direct: []Ref{{Type: "doc"}}})
-	n := 90 + r.intn(71)
+	n := sizeNear(r, 90, 160, 300)
 	name := func(i int) string { return fmt.Sprintf("r%03d", i) }
 	for i := 0; i < n; i++ {
 		rel := &Relation{Name: name(i)}
@@ -738,11 +766,11 @@ func genLongChain(r *rng) *Model {
 	return m
 }
 
-// genManyTypes: 33-100 type definitions, most of them tiny.
+// genManyTypes: 33-260 type definitions (mostly 33-100), most of them tiny.
 func genManyTypes(r *rng) *Model {
 	m := &Model{Schema: "1.1"}
 	m.Types = append(m.Types, &Type{Name: "user"})
-	n := 33 + r.intn(68)
+	n := sizeNear(r, 33, 100, 260)
 	for i := 0; i < n; i++ {
 		t := &Type{Name: fmt.Sprintf("t%03d", (i*37)%n)}
 		if m.typeByName(t.Name) != nil {
